@@ -25,7 +25,7 @@ fi
 cd /verif
 for P in "$@"; do
   echo "== check $P against the change"
-  VERIF_REPO=$WT ./check $P 2>&1 | grep -E "^(VIOLATION|SUMMARY|INCONCLUSIVE|KNOWN)" | cut -c1-400 | tee $OUT/check_$P.txt | tail -6
+  VERIF_REPO=$WT ./check $P 2>&1 | grep -a -E "^(VIOLATION|SUMMARY|INCONCLUSIVE|KNOWN)" | cut -c1-400 | tee $OUT/check_$P.txt | tail -6
 done
 git -C /verif checkout -- evidence 2>/dev/null
 git -C /repo worktree remove --force $WT
